@@ -403,6 +403,11 @@ func oneRound(c *mon.Case, kind string, slow bool, getMaterial func() *material)
 	var m *material
 	var shared *objset
 	if p := mon.Try(func() { m = getMaterial(); shared = m.cold() }); p != nil {
+		if !strings.Contains(p.Stack, "github.com/emmansun/gmsm") {
+			// no library frame: a defect of this workload's own set-up code is a harness error, never a verdict
+			// (the driver recognises a Go panic whose goroutine has no library frame)
+			panic(fmt.Sprintf("harness: set-up of the round panicked outside the library: %v\n%s", p.Value, p.Stack))
+		}
 		c.Fail("panic", "setup: %v\n%s", p.Value, p.Stack)
 		return
 	}
